@@ -113,7 +113,13 @@ MatrixStmts == {
   Put(<<PP(AStr(k1), AStr(va))>>),
   Put(<<PP(AStr(k1), AStr(va)), PP(AStr(<<122>>), AStr(vb))>>),
   Remove(<<AStr(k1)>>),
-  Remove(<<AStr(k1), AStr(k2)>>)
+  Remove(<<AStr(k1), AStr(k2)>>),
+  \* more keys / pairs than the smallest batch sizes: a multi-call write must stop at the first failed call
+  Remove(<<AStr(k1), AStr(k2), AStr(k3)>>),
+  Remove(<<AStr(k5), AStr(k1), AStr(k2), AStr(k3), AStr(<<122>>)>>),
+  Put(<<PP(AStr(k1), AStr(va)), PP(AStr(<<122>>), AStr(vb)), PP(AStr(k2), AStr(va))>>),
+  Delete(AIn(AKey, <<AStr(k1), AStr(k2), AStr(k3), AStr(k5)>>), NoLim),
+  Delete(ABin("&", AIn(AKey, <<AStr(k1), AStr(k2), AStr(k3)>>), ABin("!=", AVal, AStr(<<120>>))), NoLim)
 }
 RejectedTexts == { "select * where", "select * where key = 1", "put ('a')", "delete where key ^= 1", "remove key",
                    "select nosuch(key) where key = 'k1'", "put ('k9', value)", "delete where key = 'k1' limit", "selec * where key = 'k1'" }
